@@ -15,7 +15,7 @@ from oracles import pairs
 from vlib import cats, gen
 from vlib.core import HELD, VIOLATED, Check, Scratch, result
 
-GEOMS = ["contiguous", "clusters_far", "dense_vs_sparse", "uneven_extent", "pole", "wrap", "antipodal", "single_patch", "fullsky"]
+GEOMS = ["contiguous", "clusters_far", "dense_vs_sparse", "uneven_extent", "pole", "wrap", "antipodal", "single_patch", "fullsky", "offcentre"]
 ZCLASSES = ["lowz", "mid", "highz", "empty_bins", "one_bin", "patch_outside"]
 SCALECLASSES = ["one", "overlap", "many_edges", "weighted"]
 UNITS = ["kpc", "Mpc", "rad", "deg", "arcmin", "arcsec", "kpc/h", "Mpc/h"]
@@ -84,6 +84,11 @@ def build_world(case, rng):
         P = 2 * int(rng.integers(1, 4))
     elif geom == "single_patch":
         P = 1
+    elif geom == "offcentre":
+        # prescribed centres far apart, the data of two adjacent patches in one small field on their common
+        # border (a deep field inside a wide tiling): patch radii must be measured from the stored centres
+        P = 2
+        spacing = np.deg2rad(rng.uniform(4.0, 10.0))
     elif geom == "fullsky":
         # very wide, few patches: radii + scale exceed 180 deg
         P = int(rng.integers(2, 4))
@@ -99,7 +104,15 @@ def build_world(case, rng):
         per = np.deg2rad(10.0 ** rng.uniform(-1.3, 0.0, P))
         per = np.minimum(per, spacing * 0.6)
         radius = {"ref": per, "unk": per[::-1].copy(), "rand": per}
-    return dict(P=P, centres=centres, radius=radius, theta_max=theta_max, spacing=spacing)
+    data_centres = None
+    if geom == "offcentre":
+        mid = centres[0] + centres[1]
+        mid /= np.linalg.norm(mid)
+        r_f = spacing * rng.uniform(0.02, 0.06)
+        radius = {k: r_f for k in radius}
+        theta_max = r_f * rng.uniform(0.5, 1.5)
+        data_centres = np.array([mid, mid])
+    return dict(P=P, centres=centres, radius=radius, theta_max=theta_max, spacing=spacing, data_centres=data_centres)
 
 
 def gen_redshift_setup(case, rng):
@@ -172,7 +185,7 @@ class C01(Check):
     rule = (
         "seeded measurement set-ups from the product geometry {contiguous, compact clusters far apart, dense-compact "
         "reference vs sparse-wide unknown/randoms, patches of uneven extent, centre on the pole, field across RA=0, "
-        "antipodal groups, single patch} x redshift {zmin 0.002..0.05, 0.1..1, 1.5..5, empty bins, one bin, a patch "
+        "antipodal groups, single patch, all-sky patches, data far off the prescribed centres} x redshift {zmin 0.002..0.05, 0.1..1, 1.5..5, empty bins, one bin, a patch "
         "outside the binning; edge-valued redshifts; left/right closed} x scales {one, overlapping, >=4 distinct edges, "
         "separation weighting rweight/resolution} x all 8 units x weights {none, first, second, both; magnitudes 1e-12..1e9; exact duplicate positions} x randoms x "
         "auto/cross x count_rr; 20..400 objects per catalog on shared centres. Every cell of dd/dr/rd/rr counts and of "
@@ -242,9 +255,15 @@ class C01(Check):
 
         def make(tmp, name, kind, with_z, with_w):
             n_each = rng.integers(max(2, 20 // P), max(3, 400 // P) // (3 if kind == "ref" else 1) + 2, P)
-            xyz, _ = cats.points_around(rng, centres, n_each, world["radius"][kind] if world["radius"] else np.deg2rad(0.5))
-            # every centre must attract at least one object: add the centre itself (jittered)
-            xyz = np.concatenate([xyz, centres + rng.normal(0, 1e-6, centres.shape)])
+            if world.get("data_centres") is not None:
+                # off-centre data: a field straddling the border; two fixed points make sure both patches get objects
+                xyz, _ = cats.points_around(rng, world["data_centres"], n_each, world["radius"][kind])
+                mid, step = world["data_centres"][0], 0.3 * world["radius"][kind] * (centres[0] - centres[1]) / np.linalg.norm(centres[0] - centres[1])
+                xyz = np.concatenate([xyz, [mid + step, mid - step]])
+            else:
+                xyz, _ = cats.points_around(rng, centres, n_each, world["radius"][kind] if world["radius"] else np.deg2rad(0.5))
+                # every centre must attract at least one object: add the centre itself (jittered)
+                xyz = np.concatenate([xyz, centres + rng.normal(0, 1e-6, centres.shape)])
             xyz /= np.linalg.norm(xyz, axis=1)[:, None]
             ra, dec = gen.xyz_to_radec(xyz)
             pid, _ = cats.nearest_centre(xyz, centres)
